@@ -71,7 +71,11 @@ Definition tab_get (tab : list json) (codes : list (N * N)) (c : N) : obj :=
   end.
 
 Definition rts_of (c : case) : list rt :=
-  match c with CHugr r => [r] | CPkg mods _ _ => mods | CExt _ _ => [] end.
+  match c with
+  | CHugr r | CHist _ _ _ _ r | CMut _ _ _ r => [r]
+  | CPkg mods _ _ => mods
+  | CExt _ _ => []
+  end.
 
 (* the model's document, rendered, is the JSON value the implementation wrote (objects as maps) *)
 Definition tie_ok (j : jcase) (tab : list json) (r : rt) (t : tie) : bool :=
